@@ -88,10 +88,9 @@ def revokeRefreshS (s : Store) (rid : Nat) : Store × Res :=
     | none => (s, .notFound)
     | some rec => ({ s with refresh := aset s.refresh sig { rec with active := false } }, .ok)
 
+/-- `RevokeAccessToken`: every access token of the request goes (the index only remembers the latest) -/
 def revokeAccessS (s : Store) (rid : Nat) : Store × Res :=
-  match alookup s.atIdx rid with
-  | none => (s, .ok)
-  | some sig => ({ s with access := adel s.access sig }, .ok)
+  ({ s with access := s.access.filter (fun p => p.2.id != rid) }, .ok)
 
 /-- one storage call against the reference store -/
 def SState.exec (st : SState) : Call → SState × Res
